@@ -3,6 +3,8 @@ CONSTANTS
   Trees <- GTrees
   Voters <- V4
   W <- UnitW
+  EqV <- V4
+  PVUnanimous = FALSE
   MaxPV = 2
   MaxPC = 2
   Depth = 14
